@@ -61,7 +61,7 @@ fn me() -> Option<usize> {
     if epoch == EPOCH.load(Ordering::Acquire) { Some(index) } else { None }
 }
 
-/// Marks the registered thread as finished when dropped (also while unwinding).
+/// Returned by `register`; while unwinding it records that the thread panicked.
 pub struct Registration {
     epoch: u64,
     index: usize,
@@ -69,12 +69,27 @@ pub struct Registration {
 
 impl Drop for Registration {
     fn drop(&mut self) {
+        if self.epoch != EPOCH.load(Ordering::Acquire) || !std::thread::panicking() { return; }
+        if let Some(record) = ctl().threads.get_mut(self.index) {
+            record.view.panicked = true;
+        }
+    }
+}
+
+/// Lives in a thread-local of the registered thread: its destructor runs at thread exit, after the thread's
+/// closure (and everything it captured, e.g. a channel receiver) has been dropped, and marks the thread finished.
+struct ExitGuard {
+    epoch: u64,
+    index: usize,
+}
+
+impl Drop for ExitGuard {
+    fn drop(&mut self) {
         if self.epoch != EPOCH.load(Ordering::Acquire) { return; }
         let mut guard = ctl();
         if let Some(record) = guard.threads.get_mut(self.index) {
             record.view.finished = true;
             record.view.parked_at = None;
-            record.view.panicked = std::thread::panicking();
         }
         let role = guard.threads.get(self.index).map(|record| record.view.role.clone());
         if let Some(role) = role {
@@ -83,6 +98,10 @@ impl Drop for Registration {
         drop(guard);
         CV.notify_all();
     }
+}
+
+thread_local! {
+    static EXIT_GUARD: std::cell::RefCell<Option<ExitGuard>> = std::cell::RefCell::new(None);
 }
 
 /// Registers the calling thread under `role`. Background threads of the cache call this first thing.
@@ -100,6 +119,7 @@ pub fn register(role: &str) -> Registration {
     let index = guard.threads.len() - 1;
     ME.with(|me| me.set((epoch, index)));
     drop(guard);
+    EXIT_GUARD.with(|exit_guard| { let previous = exit_guard.borrow_mut().replace(ExitGuard { epoch, index }); std::mem::forget(previous); });
     CV.notify_all();
     Registration { epoch, index }
 }
